@@ -10,6 +10,11 @@ for d in seeded/C*/; do
   [ "$n" = "C13-multiline-take-limit-transcoded" ] && c=C17
   [ "$n" = "C03-printer-multiline-lines-split-on-lf" ] && c=C09
   [ "$n" = "C16-close-before-eof" ] && c=C18
+  [ "$n" = "C13-multiline-file-take-limit-r5" ] && c=C17
+  [ "$n" = "C03-multiline-reader-buffer-append-r5" ] && c=C09
+  [ "$n" = "C02-utf8-label-raw-on-slice" ] && c=C17
+  [ "$n" = "C09-encoding-none-strips-bom" ] && c=C17
+  [ "$n" = "C10-sigpipe-required-for-early-close" ] && c=C18
   git -C /repo diff --quiet || { echo "/repo is dirty"; exit 2; }
   git -C /repo apply /verif/$d/patch.diff || { echo "$n patch-does-not-apply" >> $out.tmp; continue; }
   line=$(./check $c quick 2>&1 | grep -E "^$c quick|CHECK-BROKEN" | head -1)
